@@ -157,7 +157,7 @@ def _events(rng, thorough):
         for nr in (0, 1):
             evs.append({"op": "sample", "kind": "surface", "P": Ps, "F": F, "n": 20, "normals": nr, "mode": "uniform", "pcls": "%dfaces%s" % (len(F), "/normals" if nr else ""),
                         "npseed": rng.randrange(10 ** 6)})
-    for order in (1, 2, 3, 4):
+    for order in (0, 1, 2, 3, 4):          # order 0: a single control point, still only defined on [0, 1]
         for d in (2, 3):
             for _ in range(4 if thorough else 2):
                 Pc = [[rng.randint(-3, 3) for _ in range(d)] for _ in range(order + 1)]
@@ -165,12 +165,14 @@ def _events(rng, thorough):
                     evs.append({"op": "bezier_curve", "P": Pc, "t": t})
                 for n in (2, 3, 7):
                     evs.append({"op": "as_polyline", "P": Pc, "n": n})
-    for (a, b) in ((2, 2), (3, 2), (2, 4), (3, 3), (4, 4)):
+    for (a, b) in ((2, 2), (3, 2), (2, 4), (3, 3), (4, 4), (1, 4), (3, 1), (1, 1)):
         N = [[[rng.randint(-3, 3) for _ in range(3)] for _ in range(b)] for _ in range(a)]
         for u, v in itertools.product(([0, 1], [1, 2], [1, 1], [2, 3]), ([0, 1], [1, 4], [1, 1])):
             evs.append({"op": "bezier_patch", "N": N, "u": u, "v": v})
         evs.append({"op": "bezier_patch", "N": N, "u": [3, 2], "v": [1, 2]})
-        for n1, n2 in ((2, 2), (3, 3), (3, 4), (4, 2), (2, 5)):
+        evs.append({"op": "bezier_patch", "N": N, "u": [1, 2], "v": [5, 4]})
+        evs.append({"op": "bezier_patch", "N": N, "u": [-1, 2], "v": [1, 2]})
+        for n1, n2 in ((2, 2), (3, 3), (3, 4), (4, 2), (2, 5)) if min(a, b) > 1 else ():
             evs.append({"op": "as_surface", "N": N, "n1": n1, "n2": n2})
     return evs
 
